@@ -347,12 +347,14 @@ func (c *client) connect1(ctx async.Context) (internalConn, status.Status) {
 		return conn, st
 	}
 
-	// Return if cancelled/closed
+	// Return if closed/cancelled
+	// Check closed first, close cancels the routine.
+	if c.closed_.IsSet() {
+		return nil, status.Closedf("mpx client closed")
+	}
 	select {
 	case <-ctx.Wait():
 		return nil, ctx.Status()
-	case <-c.closed_.Wait():
-		return nil, status.Closedf("mpx client closed")
 	default:
 	}
 
